@@ -196,34 +196,31 @@ def ppci_common(a, b):
 
 
 def sema_agrees(dm, e):
-    """True when ppci's expression typing (semantics.py) coincides with C's on every node of e
-    (the fragment of theorem c27_eval_exact_partial; mirrors Model/CSema.sema_agrees)"""
+    """True when ppci's expression typing (semantics.py with fixes/C27-sema-promotions.diff) coincides with
+    C's on every node of e (the fragment of theorem c27_eval_exact_partial; mirrors Model/CSema.sema_agrees)"""
+    def pa(x):   # promotion agrees
+        t = type_of(dm, x)
+        return ppci_promote(t) == promote(dm, t)
+    def ca(x, y):   # common type agrees
+        tx, ty = type_of(dm, x), type_of(dm, y)
+        return pa(x) and pa(y) and ppci_common(ppci_promote(tx), ppci_promote(ty)) == uac(dm, promote(dm, tx), promote(dm, ty))
     k = e[0]
     if k == 'lit':
         return True
     if k == 'cast':
         return sema_agrees(dm, e[2])
     if k == 'un':
-        if not sema_agrees(dm, e[2]):
-            return False
-        return e[1] == '!' or rank(type_of(dm, e[2])) >= 3
+        return sema_agrees(dm, e[2]) and (e[1] == '!' or pa(e[2]))
     if k == 'cond':
-        if not all(sema_agrees(dm, x) for x in e[1:]):
-            return False
-        tc, ta, tb = (type_of(dm, x) for x in e[1:])
-        return nbits(dm, tc) <= dm['int'] and ppci_common(ta, tb) == type_of(dm, e)
+        return all(sema_agrees(dm, x) for x in e[1:]) and ca(e[2], e[3])
     op, a, b = e[1], e[2], e[3]
     if not (sema_agrees(dm, a) and sema_agrees(dm, b)):
         return False
-    ta, tb = type_of(dm, a), type_of(dm, b)
     if op in ('&&', '||'):
         return True
-    if op in CMP:
-        return ppci_common(ta, tb) == uac(dm, promote(dm, ta), promote(dm, tb))
-    pc = ppci_common(ppci_promote(ta), ppci_promote(tb))
     if op in ('<<', '>>'):
-        return pc == promote(dm, ta)
-    return pc == uac(dm, promote(dm, ta), promote(dm, tb))
+        return pa(a) and pa(b)
+    return ca(a, b)
 
 
 # ------------------------------------------------------------------ rendering
@@ -344,11 +341,10 @@ def gen_expr(rng, dm, depth, types=TYPES, pp=False, small=False):
     op = rng.choice(list(BINOPS))
     a = gen_expr(rng, dm, depth - 1, types, pp, small)
     if op in ('<<', '>>'):
-        # shift counts are always small literals: a huge count makes CPython (and vm_compute) allocate 2^count bits
+        # shift counts are always small non-negative literals: a huge count (or a negative one converted to an
+        # unsigned type) makes CPython and vm_compute allocate 2^count bits
         b = ('lit', 'llong' if pp else rng.choice(['int', 'int', 'uint', 'long', 'uchar']),
              rng.choice([0, 1, 2, 3, 7, 8, 15, 16, 31, 32, 33, 63, 64, 65]))
-        if rng.random() < 0.05:
-            b = ('un', '-', ('lit', 'llong' if pp else 'int', 1))
     elif op in ('/', '%') and rng.random() < 0.5:
         t = rng.choice(types)
         b = ('lit', t, rng.choice([v for v in (1, 2, 3, 7, -1, -2, -3, 10) if fits(dm, t, v)]))
